@@ -56,6 +56,7 @@ type driverCfg struct {
 }
 
 type worker struct {
+	hist   []Job // jobs this process has executed so far (most recent last), without their cases
 	id     int
 	cmd    *exec.Cmd
 	in     io.WriteCloser
@@ -360,6 +361,11 @@ func (d *driverCfg) runPhase(eng Engine, ph Phase, deadline time.Time, nextID *i
 					return
 				}
 				res, died := w.do(job)
+				hist := append([]Job(nil), w.hist...)
+				w.hist = append(w.hist, Job{ID: job.ID, Prop: job.Prop, Seed: job.Seed, Tier: job.Tier, Mode: job.Mode, Index: job.Index})
+				if len(w.hist) > 200 {
+					w.hist = w.hist[len(w.hist)-200:]
+				}
 				if died || (res != nil && res.Verdict == "violation" && (res.Class == "hang" || res.Class == "deadlock")) {
 					tail := w.stderrTail(3000)
 					w.kill()
@@ -372,7 +378,7 @@ func (d *driverCfg) runPhase(eng Engine, ph Phase, deadline time.Time, nextID *i
 					}
 				}
 				if res != nil && res.Verdict == "violation" && res.Class != "process-death" {
-					res = d.confirm(eng, job, res)
+					res = d.confirm(eng, job, res, hist)
 				}
 				if res != nil && res.Verdict == "violation" && (res.Class == "process-death" || res.Class == "hang") && !ownsDeath(d.prop) {
 					// a build that kills or wedges the process is C01's finding, not this property's
@@ -427,7 +433,7 @@ func lastLines(s string, n int) string {
 
 // confirm re-executes a violating case in a fresh process. A violation that does not
 // reproduce is a harness determinism problem, not a finding.
-func (d *driverCfg) confirm(eng Engine, job *Job, res *Result) *Result {
+func (d *driverCfg) confirm(eng Engine, job *Job, res *Result, hist []Job) *Result {
 	if res.Case == nil {
 		return res
 	}
@@ -453,6 +459,19 @@ func (d *driverCfg) confirm(eng Engine, job *Job, res *Result) *Result {
 		if r2 == nil || r2.Verdict != "violation" {
 			res.Msg = "(the race report was not observed again in 4 fresh executions of the recorded schedule; the report of the original run follows)\n" + res.Msg
 			return res
+		}
+	}
+	if (r2 == nil || r2.Verdict != "violation" || r2.Class != res.Class) && len(hist) > 0 && len(res.Case.PriorJobs) == 0 {
+		// Does it depend on what this worker process executed before? Replay that history, then the case.
+		c3 := cloneCase(res.Case)
+		c3.PriorJobs = hist
+		j3 := *job
+		j3.Case = c3
+		if r3, died3, _ := d.runAlone(&j3); !died3 && r3 != nil && r3.Verdict == "violation" && r3.Class == res.Class {
+			r3.Case = c3
+			r3.Sig += " (depends on earlier builds in the same process)"
+			r3.Msg = fmt.Sprintf("the violation does not occur when the case is executed alone in a fresh process; it occurs after the %d runs the worker had executed before it (prior_jobs in the replay file)\n", len(hist)) + r3.Msg
+			return r3
 		}
 	}
 	if r2 == nil || r2.Verdict != "violation" || r2.Class != res.Class {
@@ -495,7 +514,29 @@ func (d *driverCfg) minimise(eng Engine, v *Result) *Result {
 		}()
 	}
 	for time.Now().Before(deadline) {
-		cands := sh.Shrinks(cur.Case)
+		var cands []*Case
+		if pj := cur.Case.PriorJobs; len(pj) > 0 {
+			// the history first: halves, then single jobs (most recent kept longest)
+			for _, cut := range []int{len(pj) / 2, len(pj) / 4, 1} {
+				if cut < 1 {
+					continue
+				}
+				for lo := 0; lo+cut <= len(pj); lo += cut {
+					c := cloneCase(cur.Case)
+					c.PriorJobs = append(append([]Job(nil), pj[:lo]...), pj[lo+cut:]...)
+					cands = append(cands, c)
+				}
+				if len(cands) > 0 {
+					break
+				}
+			}
+		}
+		if len(cands) == 0 || len(cur.Case.PriorJobs) <= 2 {
+			for _, c := range sh.Shrinks(cur.Case) {
+				c.PriorJobs = cur.Case.PriorJobs
+				cands = append(cands, c)
+			}
+		}
 		progress := false
 		for lo := 0; lo < len(cands) && !progress && time.Now().Before(deadline); lo += n {
 			hi := lo + n
